@@ -132,6 +132,14 @@ def classify_loop(fn, loop):
                 if isinstance(x, ast.Name) and id(binding_loop(t, x.id)) in inner_block:
                     cls = 'block-private'
                     break
+                # block variable plus / minus a loop-invariant offset: a translate of the block, still disjoint
+                if isinstance(x, ast.BinOp) and isinstance(x.op, (ast.Add, ast.Sub)):
+                    bv, off = (x.left, x.right) if isinstance(x.left, ast.Name) and id(binding_loop(t, x.left.id)) in inner_block else \
+                        ((x.right, x.left) if isinstance(x.op, ast.Add) and isinstance(x.right, ast.Name) and id(binding_loop(t, x.right.id)) in inner_block else (None, None))
+                    if bv is not None and not (names_in(off) & (stores_in(body) | {v})):
+                        # every block of this store must use the same offset: checked by requiring a single such store per array below
+                        cls = 'block-private'
+                        break
                 if isinstance(x, ast.Name) and x.id in cursors:
                     cls = 'cursor-private'
                     break
